@@ -1,5 +1,6 @@
 //! `verif <ID> quick|thorough` / `verif <ID> --replay <file>` / `verif selftest`
 mod common;
+mod engines;
 mod io;
 mod mpdref;
 mod props;
@@ -19,6 +20,11 @@ fn main() {
     if args[1] == "selftest" {
         println!("mpdref self-test ok");
         return;
+    }
+    if args[1] == "trace" {
+        // verif trace <property> <scenario> [choice names…]  — run one schedule and print its log
+        let case = serde_json::json!({"scenario": {"name": args[3]}, "choices": args[4..].to_vec()});
+        std::process::exit(props::replay(&args[2], &case));
     }
     let id = args[1].as_str();
     if args.len() >= 4 && args[2] == "--replay" {
